@@ -169,6 +169,16 @@ func (w *world) plan(h uint64) vset {
 		case 1: // powers rotate, keys stay
 			keys[i] = i
 			pows[i] = w.cfg.Powers[(i+d)%w.cfg.N]
+		case 4: // keys stay, powers scale: same public key hash, different power hash and total
+			keys[i] = i
+			if base < 1<<40 {
+				pows[i] = base * uint64(d+1+i%2)
+			} else {
+				pows[i] = base / uint64(d+1+i%2)
+			}
+			if pows[i] == 0 {
+				pows[i] = 1
+			}
 		case 3: // keys shift, powers scale (total changes), size changes
 			keys[i] = (i + d) % 9
 			if base < 1<<40 {
